@@ -38,9 +38,16 @@ def main():
                                   output_strategy=o.get('output_strategy'), ignore_transients=o.get('ignore_transients', True),
                                   log_level='INFO')
         try:
+            import copy as _copy
+            again = _copy.deepcopy(nbs)
             merged, decisions = merge_notebooks(nbs['base'], nbs['local'], nbs['remote'], args)
+            # ids the merge itself does not determine: nbdime builds conflict-marker cells with nbformat's
+            # new_markdown_cell, which draws a random id; merging the same inputs twice shows which ones those are
+            merged2, _d2 = merge_notebooks(again['base'], again['local'], again['remote'], args)
+            unstable = [i for i, (c1, c2) in enumerate(zip(merged.get('cells', []), merged2.get('cells', [])))
+                        if c1.get('id') != c2.get('id')]
             # cells for which the library merge returns no id (nbformat's serialiser then invents a random one)
-            noid = [i for i, c in enumerate(merged.get('cells', [])) if 'id' not in c]
+            noid = sorted(set([i for i, c in enumerate(merged.get('cells', [])) if 'id' not in c] + unstable))
             s = nbformat.writes(merged)
 
             class Cnt(io.StringIO):
